@@ -229,20 +229,40 @@ impl EigenTrustEngine {
 
         let n = node_set.len();
 
+        // Every sum below runs in a fixed (id) order. Hash-map order differs from
+        // one engine to the next, and with it the rounding of each sum; that is
+        // enough to tip the convergence test by one round, so that two engines
+        // fed the same history reported visibly different scores.
+        let mut nodes: Vec<NodeId> = node_set.into_iter().collect();
+        nodes.sort_unstable_by(|a, b| a.hash.cmp(&b.hash));
+        let mut scored: Vec<NodeId> = nodes.clone();
+        scored.extend(
+            pre_trusted
+                .iter()
+                .filter(|node| nodes.binary_search_by(|x| x.hash.cmp(&node.hash)).is_err())
+                .cloned(),
+        );
+        scored.sort_unstable_by(|a, b| a.hash.cmp(&b.hash));
+        let mut edges: Vec<(&(NodeId, NodeId), &LocalTrustData)> = local_trust.iter().collect();
+        edges.sort_unstable_by(|a, b| (a.0.0.hash, a.0.1.hash).cmp(&(b.0.0.hash, b.0.1.hash)));
+        let ordered_sum = |values: &HashMap<NodeId, f64>| -> f64 {
+            scored.iter().filter_map(|node| values.get(node)).sum()
+        };
+
         // Build sparse adjacency list for incoming edges (who trusts this node)
         // This avoids O(n²) iteration - we only iterate over actual edges
         let mut incoming_edges: HashMap<NodeId, Vec<(NodeId, f64)>> = HashMap::new();
         let mut outgoing_sums: HashMap<NodeId, f64> = HashMap::new();
 
         // Calculate outgoing sums for normalization
-        for ((from, _), data) in local_trust.iter() {
+        for ((from, _), data) in edges.iter().copied() {
             if data.value > 0.0 {
                 *outgoing_sums.entry(from.clone()).or_insert(0.0) += data.value;
             }
         }
 
         // Build normalized adjacency list
-        for ((from, to), data) in local_trust.iter() {
+        for ((from, to), data) in edges.iter().copied() {
             if data.value <= 0.0 {
                 continue;
             }
@@ -264,7 +284,7 @@ impl EigenTrustEngine {
         // Initialize trust vector uniformly
         let mut trust_vector: HashMap<NodeId, f64> = HashMap::new();
         let initial_trust = 1.0 / n as f64;
-        for node in &node_set {
+        for node in &nodes {
             trust_vector.insert(node.clone(), initial_trust);
         }
 
@@ -284,7 +304,7 @@ impl EigenTrustEngine {
             let mut new_trust: HashMap<NodeId, f64> = HashMap::new();
 
             // Propagate trust through edges (1-alpha portion)
-            for node in &node_set {
+            for node in &nodes {
                 let mut trust_sum = 0.0;
 
                 // Get incoming trust from edges
@@ -304,7 +324,7 @@ impl EigenTrustEngine {
             // flow. Without this it would leak and be handed back proportionally by
             // the normalisation below - also to identities nobody vouches for.
             // Standard EigenTrust: such nodes defer to the pre-trusted distribution.
-            let dangling_mass: f64 = node_set
+            let dangling_mass: f64 = nodes
                 .iter()
                 .filter(|node| outgoing_sums.get(*node).is_none_or(|sum| *sum <= 0.0))
                 .filter_map(|node| trust_vector.get(node))
@@ -322,14 +342,14 @@ impl EigenTrustEngine {
             } else {
                 // No pre-trusted nodes - uniform teleportation
                 let uniform_value = teleport_mass / n as f64;
-                for node in &node_set {
+                for node in &nodes {
                     let current = new_trust.entry(node.clone()).or_insert(0.0);
                     *current += uniform_value;
                 }
             }
 
             // Normalize the trust vector to sum to 1.0
-            let sum: f64 = new_trust.values().sum();
+            let sum: f64 = ordered_sum(&new_trust);
             if sum > 0.0 {
                 for trust in new_trust.values_mut() {
                     *trust /= sum;
@@ -338,7 +358,7 @@ impl EigenTrustEngine {
 
             // Check convergence
             let mut diff = 0.0;
-            for node in &node_set {
+            for node in &nodes {
                 let old = trust_vector.get(node).unwrap_or(&0.0);
                 let new = new_trust.get(node).unwrap_or(&0.0);
                 diff += (old - new).abs();
@@ -380,7 +400,7 @@ impl EigenTrustEngine {
         }
 
         // Normalize trust scores
-        let total_trust: f64 = trust_vector.values().sum();
+        let total_trust: f64 = ordered_sum(&trust_vector);
         if total_trust > 0.0 {
             for (_, trust) in trust_vector.iter_mut() {
                 *trust /= total_trust;
